@@ -1,6 +1,6 @@
 """Writes /verif/known_findings.json (committed; never modified at run time)."""
 import json
-SEMP = ["C01", "C02", "C03", "C04", "C05", "C06", "C07", "C08", "C19", "C20", "C21", "C22", "C23", "C25", "C26", "C31"]
+SEMP = ["C01", "C02", "C03", "C04", "C05", "C06", "C07", "C08", "C29", "C19", "C20", "C21", "C22", "C23", "C25", "C26", "C31"]
 F = []
 
 def known(id, props, what, witness, match=None, match_any=None):
@@ -102,6 +102,8 @@ fixed("FX7-intdiv-truncation", ["C16"], "466e01c", "X is -7 // 2 gave -4 (floor)
 fixed("FX8-round-integer", ["C16"], "eaa3896", "round(2.5) = 2 (banker's rounding) and integer(2.5) = 2 (truncation) instead of 3", "r(X) :- X is round(2.5).")
 fixed("FX9-float-parts-type", ["C16"], "c81281a", "float_integer_part/float_fractional_part returned integers", "r(X) :- X is float_integer_part(2.5).")
 fixed("FX10-arith-typeerror", ["C16", "C27"], "e815c27", "a bitwise operator applied to a float raised Python's TypeError instead of a ProbLog ArithmeticError", "r(X) :- X is 1.5 /\\ 1.")
+fixed("FX11-extension-ad-group-id", ["C29"], "c1ae688", "an AD added to db.extend() could share its group id with an AD of the parent (wrong probabilities)", "base 0.4::a; 0.1::b; 0.3::c :- c, c.  extension += 0.2::a; 0.3::b; 0.5::c.  query b: 0.1 instead of 0.35")
+fixed("FX12-nested-extension-redirect-chain", ["C29"], "b16d578", "a second-level extension lost clauses of a predicate that the base only referenced (placeholder redirect not resolved through ancestors)", "base: 0.1::b :- a, q(X,X). (q undefined); ext1 adds q/2 clause; ext2 adds another q/2 clause; query on ext2 ignores it")
 fixed("FX1-break-cycles-true-child", ["C01", "C09"], "29bdee9",
       "AssertionError in LogicFormula.get_node(0) from _break_cycles when a disjunction below an evidence node contains the TRUE node",
       "0.1::h(c1). d(c1). d(c2). p(X) :- d(X), r(c1). p(Y) :- d(Y). r(X) :- p(X). r(Y) :- d(Y), h(X). query(p(c1)). evidence(r(c1)).")
